@@ -5,7 +5,8 @@ from vlib.core import Machinery
 LEVEL = "model_checking"
 
 MEM_BASE = dict(InitN=3, InitCap=4, MaxOps=2, NDisp=1, NAdmin=2, Classes={1},
-                OpKinds={"add", "delidx", "delkey"}, DeleteInPlace=False, UseMutex=True)
+                OpKinds={"add", "delidx", "delkey"}, DeleteInPlace=False, UseMutex=True, TruncateTail=False,
+                CoarseAdmin=False)
 MEM_INV = ["SnapshotImmutable", "Atomic", "NoSkipNoDup", "ViewOK", "ResultsOK", "TypeOK"]
 
 
@@ -40,12 +41,30 @@ def model_check(ctx):
                 workers=4, expect_ok=False, count=False, tag="nv_mutex")
     if r["violated"] != "ViewOK":
         raise Machinery("UseMutex=FALSE does not violate ViewOK in the model (vacuity)")
-    ctx.cov["model_deviations_rejected"] = ["DeleteInPlace=TRUE -> Atomic, SnapshotImmutable", "UseMutex=FALSE -> ViewOK"]
+    # the delete of the LAST entry as a plain truncation s[:n-1] (capacity not capped): the next add appends in place into a
+    # cell that older, longer published slices still cover.  One delete + one add already breaks SnapshotImmutable; at the
+    # granularity of the replay (CoarseAdmin: dispatcher steps only between complete operations) Atomic survives every
+    # history of 2 operations and breaks with 3 (delete-last, delete-last, add) -- hence the 3-operation replay schedules.
+    trunc = dict(MEM_BASE, TruncateTail=True, NAdmin=1, OpKinds={"add", "delidx"})
+    r = ctx.tlc("TableMem", "TableMem_mc.cfg", consts=dict(trunc), invariants=["SnapshotImmutable"],
+                workers=4, expect_ok=False, count=False, tag="nv_trunc_snap")
+    if r["violated"] != "SnapshotImmutable":
+        raise Machinery("TruncateTail=TRUE with 2 operations does not violate SnapshotImmutable in the model (vacuity)")
+    ctx.tlc("TableMem", "TableMem_mc.cfg", consts=dict(trunc, CoarseAdmin=True), invariants=["Atomic", "NoSkipNoDup", "ViewOK"],
+            workers=4, count=False, tag="nv_trunc_2ops")
+    r = ctx.tlc("TableMem", "TableMem_mc.cfg", consts=dict(trunc, CoarseAdmin=True, MaxOps=3), invariants=["Atomic"],
+                workers=4, expect_ok=False, count=False, tag="nv_trunc_atomic")
+    if r["violated"] != "Atomic" or not re.search(r"dvis = <<<<1, 4, 3>>>>", r["text"]):
+        raise Machinery("TruncateTail=TRUE: delete-last, delete-last, add under a held dispatcher is not rejected as Atomic "
+                        "with the visit list <<1, 4, 3>> (vacuity); log %s" % r["log"])
+    ctx.cov["model_deviations_rejected"] = ["DeleteInPlace=TRUE -> Atomic, SnapshotImmutable", "UseMutex=FALSE -> ViewOK",
+                                            "TruncateTail=TRUE -> SnapshotImmutable (2 ops), Atomic (3 ops: delete-last, "
+                                            "delete-last, add; not with 2 complete ops)"]
 
 
 def gen_schedules(ctx, kind, **kw):
     c = dict(InitN=3, MaxOps=2, NDisp=1, Classes={1}, AddFilters={0}, UpdFilters={1}, OpKinds={"add", "delidx"},
-             StepWise=True, KeyMod=1000)
+             StepWise=True, KeyMod=1000, DelTail=False)
     c.update(kw)
     r = ctx.tlc("TableSched", "TableSched.cfg", consts=c, workers=1, timeout=1200,
                 tag="sched_%s_%d" % (kind, len(ctx.cov["tlc_runs"])))
@@ -64,6 +83,10 @@ def schedules(ctx):
     # inside a real sendAllMatch route (destinations), log-hook gate
     S += gen_schedules(ctx, "dest", OpKinds={"add", "delidx"})
     S += gen_schedules(ctx, "dest", OpKinds={"updidx", "delidx"}, Classes={1, 2}, UpdFilters={1}, MaxOps=ctx.pick(1, 2))
+    # 3 operations around the end of the list: every interleaving of one held dispatcher with add / delete-LAST histories
+    # (delete-last, delete-last, add while the dispatcher still holds the first, longest snapshot: see TableMem.TruncateTail)
+    S += gen_schedules(ctx, "route", OpKinds={"add", "delkey"}, MaxOps=3, DelTail=True)
+    S += gen_schedules(ctx, "dest", OpKinds={"add", "delidx"}, MaxOps=3, DelTail=True)
     # table level, real routes (one destination each), commands addRoute/delRoute/modRoute
     S += gen_schedules(ctx, "rroute", OpKinds={"add", "delkey", "updkey"}, InitN=2, Classes={1, 2}, UpdFilters={1},
                        AddFilters={0, 2}, MaxOps=ctx.pick(1, 2))
@@ -76,6 +99,8 @@ def schedules(ctx):
         S += gen_schedules(ctx, "route", OpKinds={"add", "delkey"}, MaxOps=3)
         S += gen_schedules(ctx, "dest", OpKinds={"add", "delidx"}, NDisp=2, MaxOps=1)
         S += gen_schedules(ctx, "dest", OpKinds={"delidx"}, InitN=4, MaxOps=2)
+        S += gen_schedules(ctx, "rroute", OpKinds={"add", "delkey"}, InitN=3, MaxOps=3, DelTail=True)
+        S += gen_schedules(ctx, "route", OpKinds={"add", "delkey"}, InitN=4, MaxOps=4, DelTail=True)
     for i, s in enumerate(S):
         s["h"] = i
     return S
@@ -144,6 +169,21 @@ def last_op(block, i):
     return {}
 
 
+def changed_snapshots(block, i):
+    """for the report only (the verdict is TLC's): which earlier published slices read differently at event i"""
+    first, out = {}, []
+    for j, e in enumerate(block[:i + 1]):
+        if e["ev"] != "opdone":
+            continue
+        for lst, reads in e.get("snaps", {}).items():
+            for n, ids in enumerate(reads):
+                if (lst, n) not in first:
+                    first[(lst, n)] = (ids, j)
+                elif j == i and ids != first[(lst, n)][0]:
+                    out.append(dict(list=lst, snapshot=n, published=first[(lst, n)][0], now=ids))
+    return out
+
+
 def run_driver(ctx, test, name, scn, timeout):
     sf = ctx.write_ndjson(name + "_scn.ndjson", scn)
     tf = os.path.join(ctx.out, name + "_events.ndjson")
@@ -196,9 +236,12 @@ def run(ctx):
                     "between its start and its end (last change: %s %s)" % (ev.get("d"), ev.get("vis"), ev.get("rw"),
                                                                            op.get("op"), {k: op.get(k) for k in "efik"}))
         elif clause == "SnapshotImmutable":
+            ch = changed_snapshots(b, i)
             sig = "snapshot-mutated list=%s kind=%s op=%s" % (op.get("l"), kind, op.get("op"))
-            what = ("%s on list %s changed cells of the slice a concurrent reader holds: before %s after %s" %
-                    (op.get("op"), op.get("l"), ev.get("before"), ev.get("after")))
+            what = ("%s on list %s overwrote cells of a slice that was published earlier in this history (a dispatcher that "
+                    "loaded it then may still be iterating it): %s" %
+                    (op.get("op"), op.get("l"), "; ".join("snapshot #%d of %s published as %s reads %s now" % (
+                        c["snapshot"], c["list"], c["published"], c["now"]) for c in ch[:3]) or "no earlier reading?"))
         elif clause == "ViewOK":
             sig = "view list=%s kind=%s op=%s" % (op.get("l"), kind, op.get("op"))
             what = "after %s %s the table shows %s" % (op.get("op"), {k: op.get(k) for k in "efik"}, ev.get("view"))
@@ -218,9 +261,8 @@ def run(ctx):
 
     n1, bad1 = validate(ctx, "replay", blocks, False, on_bad)
     if any(v["sig"].startswith("snapshot-mutated") for v in ctx.violations):
-        # what traffic sees of it: the same histories judged without the white-box clause
-        mut = [b for b in blocks if any(e["ev"] == "opdone" and e["before"] != e["after"] for e in b)]
-        validate(ctx, "replayvis", mut[:200], False, on_bad, max_rounds=3, check_cells=False)
+        # what traffic sees of it: the histories judged again without the white-box clauses
+        validate(ctx, "replayvis", blocks, False, on_bad, max_rounds=3, check_cells=False)
     # second pass: sends into shut-down destinations (separate clause, separate signature)
     withdead = [b for b in blocks if any(e["ev"] == "end" and e.get("dead", 0) > 0 for e in b)]
     ctx.cov["histories_with_send_to_shutdown_destination"] = len(withdead)
@@ -272,7 +314,9 @@ def run(ctx):
     cov["load_ops_overlapping_a_dispatch"] = overl
     cov["rule"] = ("replay: every interleaving (TLC, TableSched.tla) of <=2-3 admin operations with the entry-by-entry steps of "
                    "1-2 held dispatchers over 2-4 entries, per list kind (capture routes, real routes, destinations of a real "
-                   "sendAllMatch route; rewriter/blacklist/aggregator lists with whole dispatches + white-box cell comparison); "
+                   "sendAllMatch route; rewriter/blacklist/aggregator lists with whole dispatches), plus every interleaving of 3 add / "
+                   "delete-LAST operations with one held dispatcher (routes, destinations); white box after every operation on every "
+                   "list: all slices published so far in the history re-read and compared cell by cell; "
                    "load: seeded random admin histories (commands and Go API, valid/unknown/out-of-range arguments) under 2-6 "
                    "free-running dispatchers; every end/opdone event judged by TableTrace.tla; distinct = distinct "
                    "(kind, schedule) containing both an operation and a dispatch")
@@ -294,7 +338,7 @@ def run(ctx):
         "destinations point at a closed loopback port; a visit is observed at the Tracef call preceding `dest.In <- buf` (logrus hook "
         "installed by the driver, also the gate) and cross-checked against the destinations' conn_down_no_spool counters",
     ]
-    cov["trusted_base"] = ["TLC", "harness/tbl driver (records only)", "table.VerifRawConfig / route.VerifRawDests accessors",
+    cov["trusted_base"] = ["TLC", "harness/tbl driver (records only)", "table.VerifRawConfig / route.VerifRawDests accessors (the driver keeps every slice header it saw published and re-reads all of them after every operation)",
                            "the Tracef call in route.Dispatch as observation point inside real routes"]
 
 
@@ -310,11 +354,15 @@ def selftest(ctx, blocks):
     validate(ctx, "selftest1", split(flat), False, lambda b, i, c: hit.append((b[i], c)), max_rounds=1)
     if not hit or hit[0][1] != "Atomic" or hit[0][0]["vis"] != flat[idx]["vis"]:
         raise Machinery("binding self-test failed: a skip+duplicate in a recorded visit list was not rejected as Atomic (%s)" % hit[:1])
+    # a cell of the OLDEST non-empty published slice reads differently after a much later operation
     flat = copy.deepcopy([e for b in cand for e in b])
-    idx = next(i for i, e in enumerate(flat) if e["ev"] == "opdone" and len(e["after"]) >= 2)
-    flat[idx]["after"][0] = flat[idx]["after"][1]
+    idx = max((i for i, e in enumerate(flat) if e["ev"] == "opdone"), key=lambda i: (len(flat[i]["snaps"]["main"]), -i))
+    if len(flat[idx]["snaps"]["main"]) < 4 or not flat[idx]["snaps"]["main"][1]:
+        raise Machinery("binding self-test: no history with >= 4 published slices of the main list")
+    flat[idx]["snaps"]["main"][1][0] += 1
     hit = []
     validate(ctx, "selftest2", split(flat), False, lambda b, i, c: hit.append((b[i], c)), max_rounds=1)
-    if not hit or hit[0][1] != "SnapshotImmutable":
-        raise Machinery("binding self-test failed: a changed cell was not rejected as SnapshotImmutable (%s)" % hit[:1])
+    if not hit or hit[0][1] != "SnapshotImmutable" or hit[0][0] != flat[idx]:
+        raise Machinery("binding self-test failed: a changed cell of an old published slice was not rejected as "
+                        "SnapshotImmutable at that operation (%s)" % hit[:1])
     ctx.cov["binding_selftests"] = "passed"
